@@ -28,6 +28,12 @@ impl<B: MutRB<Item = T>, T, I: AsyncIterator> AsyncDetached<I, B> {
     }
 
     /// Same as [`Detached::attach`].
+    /// Verification hook: read-only access to the detached iterator.
+    #[cfg(feature = "verif-hooks")]
+    pub fn verif_inner(&self) -> &I {
+        &self.inner
+    }
+
     pub fn attach(self) -> I {
         self.sync_index();
         self.inner
